@@ -671,6 +671,14 @@ def run(ctx):
         return
     corpus = vlib.corpus_lines("C02")
     lines = corpus + [gen_line(ctx.rng) for _ in range(ctx.n(110, 3000))]
+    # the result type of every binary logical operator for every declared left operand type (x := a op b, value probed)
+    rights = TYPES if not ctx.quick else [t for t in TYPES if t[0] in ("Int", "String?", "Bool", "nil")]
+    for op in ("and", "or", "nc"):
+        for lt in TYPES:
+            for rt in rights:
+                c = (op, ('v', 0), ('v', 1))
+                if not has_or_on_nil_path(c):
+                    lines.append(make_line([lt, rt], c))
     check_lines(ctx, lines, "narrowing")
     check_witnesses(ctx)
     check_scope(ctx)
